@@ -489,3 +489,14 @@ Theorem C05_nodisp_src_def : forall c,
                       a_env a = None /\ a_default a = [] /\ a_default_ifs a = []).
 Proof. exact (fun c => conj (fun H => H) (fun H => H)). Qed.
 Print Assumptions C05_nodisp_src_def.
+
+(** Outside the classes above (and outside the property's class, whose multi-valued positional is the
+    TRAILING one): with the low-index-multiple rule ([prog <files>... <dest>]) the shape of a tail
+    token still decides the outcome -- [prog -- v -x c] is rejected (UnknownArgument), [prog -- v b c]
+    is accepted.  Model and implementation agree. *)
+Theorem C05_low_index_tail_shape_refuted : exists c0 tail alt,
+  plain c0 = true /\ valid c0 = true /\ length tail = length alt /\
+  (exists m, do_parse c0 (dashdash :: alt) = OOk m) /\
+  (exists e, do_parse c0 (dashdash :: tail) = OErr e /\ e_kind e = EUnknownArgument).
+Proof. exact low_index_tail_shape_refuted. Qed.
+Print Assumptions C05_low_index_tail_shape_refuted.
